@@ -566,8 +566,15 @@ def main():
         o.append("")
     o.append("    pub fn api() -> dropshot::ApiDescription<()> {")
     o.append("        let mut api = dropshot::ApiDescription::new();")
-    for name, *_ in built:
+    for k, (name, *_) in enumerate(built):
         o.append(f"        api.register({name}).expect(\"registers\");")
+        if k in (0, len(built) // 3, len(built) - 2):
+            # documents are also generated while the description is still being built (before
+            # the first, in the middle of and just before the last registrations): what is
+            # registered later must be documented all the same
+            o.append("        for p in super::PROBES {")
+            o.append("            let _ = api.openapi(\"t\", semver::Version::parse(p).unwrap()).json();")
+            o.append("        }")
     o.append("        api\n    }\n}\n")
     o.append("/// Declared a second time as an API trait.\npub mod tr {\n" + PRELUDE)
     o.append("    #[dropshot::api_description]\n    pub trait C19Api {\n        type Context;\n")
